@@ -4371,14 +4371,17 @@ where
         chars.len()
     };
 
-    if check(new)? {
-        let mut tail = chars.split_off(index);
-        let mut middle = new.chars().collect::<Vec<char>>();
+    let mut tail = chars.split_off(index);
+    let mut middle = new.chars().collect::<Vec<char>>();
 
-        chars.append(&mut middle);
-        chars.append(&mut tail);
+    chars.append(&mut middle);
+    chars.append(&mut tail);
 
-        Ok(chars.iter().collect())
+    // Check the data as it will be stored: a forbidden sequence may only arise
+    // where the inserted characters meet the existing ones.
+    let inserted = chars.iter().collect::<String>();
+    if check(inserted.as_str())? {
+        Ok(inserted)
     } else {
         Err(error::Error::InvalidData(new.to_string()))
     }
